@@ -42,4 +42,4 @@ m.update({"property":P,"source":"fresh sub-agent given only the property text an
 m.setdefault("runs",[]); m["runs"]+= [r for r in res.split('|') if r]
 json.dump(m,open(mp,'w'),indent=1)
 PY
-cd /; git -C /repo worktree remove --force $wt; rm -rf /verif/.cache/alt-$(printf %s "$wt" | sha1sum | cut -c1-10) $log
+cd /; A=/verif/.cache/alt-$(printf %s "$wt" | sha1sum | cut -c1-10); mkdir -p /verif/.cache/last-replays/$(basename $wt); cp -r $A/replays/. /verif/.cache/last-replays/$(basename $wt)/ 2>/dev/null; git -C /repo worktree remove --force $wt; rm -rf $A $log
